@@ -430,13 +430,139 @@ static void vf_native(void)
                 canaries=[{"fn": f.name, "rx": r"if \(FFFF\(v\)\) continue;", "rp": "", "expect": r"%s\.(postcondition|loop_invariant_step)" % cname}])
 
 
+def unit_extremum_vv(which, nrow=4):
+    """VH::maximum / VH::minimum over a vector of vectors: combines the per-vector extrema (callee abstracted by its value per row)."""
+    mx = which == "maximum"
+    cname = "VH_%s_vv" % which
+    LE = (lambda a, b: "%s >= %s" % (a, b)) if mx else (lambda a, b: "%s <= %s" % (a, b))
+    pre = BOOL + """
+#define NROW %d
+#define MAX(a,b) (((a) > (b)) ? (a) : (b))
+#define MIN(a,b) (((a) < (b)) ? (a) : (b))
+/* the extremum of row k as VH::%s(vect[k], flagAbs) returns it (contract of that callee: units C11.VH.%s): one value per (row, flagAbs) */
+#define ROWEXT(k, fa) ((fa) ? W_extabs[k] : W_ext[k])
+""" % (nrow, which, which)
+    notnan = AND("(W_ext[%d] == W_ext[%d] && W_extabs[%d] == W_extabs[%d])" % (k, k, k, k) for k in range(nrow))
+    contract = "\n".join([
+        "__CPROVER_requires(1 <= vect_size && vect_size <= NROW && %s)" % notnan,
+        "__CPROVER_assigns()",
+        "__CPROVER_ensures(%s)" % AND("(%d >= vect_size || %s)" % (k, LE("__CPROVER_return_value", "ROWEXT(%d, flagAbs)" % k)) for k in range(nrow)),
+        "__CPROVER_ensures(%s)" % " || ".join("(%d < vect_size && __CPROVER_return_value == ROWEXT(%d, flagAbs))" % (k, k) for k in range(nrow)),
+    ])
+    loop = "\n".join([
+        "__CPROVER_assigns(i, val)",
+        "__CPROVER_loop_invariant(1 <= i && i <= n && n == vect_size)",
+        "__CPROVER_loop_invariant(%s)" % AND("(%d >= i || %s)" % (k, LE("val", "ROWEXT(%d, flagAbs)" % k)) for k in range(nrow)),
+        "__CPROVER_loop_invariant(%s)" % " || ".join("(%d < i && val == ROWEXT(%d, flagAbs))" % (k, k) for k in range(nrow)),
+        "__CPROVER_decreases(n - i)",
+    ])
+    f = Fn("VectorHelper::%s(VectorVectorDouble)" % which, "src/Basic/VectorHelper.cpp",
+           r"^double VectorHelper::%s\(const VectorVectorDouble& vect, bool flagAbs\)\s*$" % which,
+           csig="double %s(int vect_size, bool flagAbs)" % cname, contract=contract, loops={1: loop}, nloops=1,
+           rewrites=[(r"VH::%s\(vect\[(\w+)\], flagAbs\)" % which, r"ROWEXT(\1, flagAbs)", None),
+                     (r"VH::%s\(vect\[(\w+)\]\)" % which, r"ROWEXT(\1, false)", "opt"),   # a call that omits flagAbs (default false) - the original text had one
+                     (r"\(int\) vect\.size\(\)", "vect_size", 1)])
+    h = """
+void vf_harness(void)
+{
+  vf_havoc_inputs();
+  %s(W_n, W_flagAbs);
+  VF_REACH();
+}
+""" % cname
+    native = r"""
+static void vf_native(void)
+{
+  if (!(1 <= W_n && W_n <= NROW)) exit(77);
+  for (int k = 0; k < NROW; k++) if (W_ext[k] != W_ext[k] || W_extabs[k] != W_extabs[k]) exit(77);
+  double r = %s(W_n, W_flagAbs); int hit = 0;
+  for (int k = 0; k < W_n; k++) { double e = ROWEXT(k, W_flagAbs); __CPROVER_assert(%s, "the result bounds the extremum of every vector"); if (r == e) hit = 1; }
+  __CPROVER_assert(hit, "the result is the extremum of one of the vectors");
+}
+""" % (cname, LE("r", "e"))
+    return Unit("C11.VH.%s.vv" % which, [f], prelude=pre, harness=h, native=native, pre_inputs=BOOL, defines={"NROW": nrow},
+                inputs=[("double", "W_ext", "NROW"), ("double", "W_extabs", "NROW"), ("int", "W_n"), ("bool", "W_flagAbs")],
+                enforce=cname, backends=("minisat", "cadical"), timeout=600, fallback_unwind=nrow + 2,
+                claim=("VH::%s(vector of vectors, flagAbs) returns the %s of the per-vector results VH::%s(vect[k], flagAbs), the same flagAbs for every vector "
+                       "including the first; nothing written; loop closed by invariant (vectors <= %d)" % (which, which, which, nrow)),
+                assumptions=["at most %d vectors (quantifier range); at least one (vect[0] is read unconditionally)" % nrow,
+                             "callee VH::%s(vect[k], flagAbs) abstracted as one value per (row, flagAbs) - its own contract is discharged by unit C11.VH.%s; values not NaN" % (which, which)],
+                canaries=[{"fn": f.name, "rx": r"int i = 1, n", "rp": "int i = 2, n", "expect": r"%s\.(postcondition|loop_invariant_base)" % cname}])
+
+
+def unit_extremum_int(which, nmax=6):
+    """VH::maximum / VH::minimum (VectorInt, flagAbs), Route C, loop closed by invariant."""
+    mx = which == "maximum"
+    var = "max" if mx else "min"
+    cname = "VH_%s_int" % which
+    init = "-10000000" if mx else "10000000"
+    GE = (lambda a, b: "%s >= %s" % (a, b)) if mx else (lambda a, b: "%s <= %s" % (a, b))
+    pre = BOOL + """
+#define NMAX %d
+#define ITEST (-1234567)
+#define IFFFF_(v) ((v) == ITEST)
+static bool IFFFF(int v) { return IFFFF_(v); }
+#define ABS(a) (((a) < 0.) ? -(a) : (a))
+#define A_(k) (flagAbs ? ABS(W_ivec[k]) : W_ivec[k])
+""" % nmax
+    contract = "\n".join([
+        "__CPROVER_requires(0 <= vec_size && vec_size <= NMAX && vec == W_ivec)",
+        # the library's integer sentinel domain: defined values within +-1e7
+        "__CPROVER_requires(%s)" % AND("(-10000000 <= W_ivec[%d] && W_ivec[%d] <= 10000000)" % (k, k) for k in range(nmax)),
+        "__CPROVER_assigns()",
+        "__CPROVER_ensures(vec_size != 0 || __CPROVER_return_value == 0)",
+        "__CPROVER_ensures(vec_size == 0 || %s)" % AND("(%d >= vec_size || IFFFF_(W_ivec[%d]) || %s)" % (k, k, GE("__CPROVER_return_value", "A_(%d)" % k)) for k in range(nmax)),
+        "__CPROVER_ensures(vec_size == 0 || __CPROVER_return_value == %s || (%s))" % (init, " || ".join("(%d < vec_size && !IFFFF_(W_ivec[%d]) && __CPROVER_return_value == A_(%d))" % (k, k, k) for k in range(nmax))),
+    ])
+    loop = "\n".join([
+        "__CPROVER_assigns(vk, %s)" % var,
+        "__CPROVER_loop_invariant(0 <= vk && vk <= vec_size)",
+        "__CPROVER_loop_invariant(%s)" % AND("(%d >= vk || IFFFF_(W_ivec[%d]) || %s)" % (k, k, GE(var, "A_(%d)" % k)) for k in range(nmax)),
+        "__CPROVER_loop_invariant(%s == %s || (%s))" % (var, init, " || ".join("(%d < vk && !IFFFF_(W_ivec[%d]) && %s == A_(%d))" % (k, k, var, k) for k in range(nmax))),
+        "__CPROVER_decreases(vec_size - vk)",
+    ])
+    f = Fn("VectorHelper::%s(VectorInt)" % which, "src/Basic/VectorHelper.cpp", r"^int VectorHelper::%s\(const VectorInt &vec, bool flagAbs\)\s*$" % which,
+           csig="int %s(const int* vec, int vec_size, bool flagAbs)" % cname, contract=contract, loops={1: loop}, nloops=1,
+           rewrites=[(r"vec\.size\(\) <= 0", "vec_size <= 0", 1),
+                     (r"for \(auto v : vec\)\s*\n(\s*)\{", r"for (int vk = 0; vk < vec_size; vk++)\n\1{ int v = vec[vk];", 1)])
+    h = """
+void vf_harness(void)
+{
+  vf_havoc_inputs();
+  %s(W_ivec, W_n, W_flagAbs);
+  VF_REACH();
+}
+""" % cname
+    native = r"""
+static void vf_native(void)
+{
+  if (!(0 <= W_n && W_n <= NMAX)) exit(77);
+  for (int k = 0; k < NMAX; k++) if (W_ivec[k] < -10000000 || W_ivec[k] > 10000000) exit(77);
+  int r = %s(W_ivec, W_n, W_flagAbs);
+  if (W_n == 0) { __CPROVER_assert(r == 0, "empty vector: 0"); return; }
+  int hit = (r == %s);
+  for (int k = 0; k < W_n; k++) if (!IFFFF(W_ivec[k])) { int a = W_flagAbs ? ABS(W_ivec[k]) : W_ivec[k];
+    __CPROVER_assert(%s, "the result bounds every defined element"); if (r == a) hit = 1; }
+  __CPROVER_assert(hit, "the result is one of the defined elements");
+}
+""" % (cname, init, GE("r", "a"))
+    return Unit("C11.VH.%s.int" % which, [f], prelude=pre, harness=h, native=native, pre_inputs=BOOL, defines={"NMAX": nmax},
+                inputs=[("int", "W_ivec", "NMAX"), ("int", "W_n"), ("bool", "W_flagAbs")], enforce=cname, backends=("minisat", "cadical"), timeout=600,
+                fallback_unwind=nmax + 2,
+                claim=("VH::%s(VectorInt, flagAbs): 0 for an empty vector; otherwise the %s of (|.| of) the defined (non ITEST) elements, %s when none is defined; "
+                       "nothing written, no overflow; loop closed by invariant (length <= %d)" % (which, which, init, nmax)),
+                assumptions=["at most %d elements (quantifier range)" % nmax, "values within [-1e7, 1e7]: outside it the start value +-1e7 hides them (the library's integer sentinel convention)",
+                             "const VectorInt& -> (const int*, int); range-for rewritten to an index loop (must-fire rule)"],
+                canaries=[{"fn": f.name, "rx": r"if \(IFFFF\(v\)\) continue;", "rp": "", "expect": r"%s\.(postcondition|loop_invariant_step)" % cname}])
+
+
 def units(tier):
-    return [unit_dense_dims(), unit_sparse_dims(), unit_normmatrix(), unit_where("Minimum"), unit_where("Maximum"), unit_where_element(), unit_extremum("maximum"), unit_extremum("minimum")]
+    return [unit_dense_dims(), unit_sparse_dims(), unit_normmatrix(), unit_where("Minimum"), unit_where("Maximum"), unit_where_element(), unit_extremum("maximum"), unit_extremum("minimum"), unit_extremum_vv("maximum"), unit_extremum_vv("minimum"), unit_extremum_int("maximum"), unit_extremum_int("minimum")]
 
 
 META = {
     "level": "other",
-    "explanation": "(the two dimension units and the five VH units (whereMinimum, whereMaximum, whereElement, maximum, minimum) are unbounded proofs, normMatrix.terms is a bounded stand-in, hence level 'other') Shape/index contracts of the Eigen-backed dense kernels and sparse product kernels for every shape; extremum-rank contracts of VH::whereMinimum / whereMaximum (loop invariant); numerical values, sparse storage, decompositions and thread-count independence are not decidable here.",
+    "explanation": "(the two dimension units and the nine VH units (whereMinimum, whereMaximum, whereElement, maximum, minimum, their vector-of-vectors and VectorInt forms) are unbounded proofs, normMatrix.terms is a bounded stand-in, hence level 'other') Shape/index contracts of the Eigen-backed dense kernels and sparse product kernels for every shape; extremum-rank contracts of VH::whereMinimum / whereMaximum (loop invariant); numerical values, sparse storage, decompositions and thread-count independence are not decidable here.",
     "trusted_base": ["CBMC 6.11 C++ front end", "Eigen (numerics)", "stub classes"],
     "assumptions": [],
     "not_covered": ["values computed by Eigen/csparse", "csparse storage of MatrixSparse and its non-product methods", "Cholesky / eigen-decomposition", "thread-count independence (no thread model)",
@@ -444,7 +570,7 @@ META = {
 }
 MANIFEST = {
     "category": "other",
-    "text": "Dimension-typing contracts on the Eigen-backed kernels of AMatrixDense (18 methods) and on the Eigen-storage product kernels of MatrixSparse (9 methods): loop-free, hence for every matrix shape and both transposition flags (proved); bounded (3x3) term-coverage unit on the generic congruence product normMatrix; VH::whereMinimum / whereMaximum return the rank of the extremum of the defined elements VH::whereElement the first rank of the target, VH::maximum / VH::minimum (conditional forms) the extremum of the retained elements (loop invariants, proved); other values are not claimed.",
+    "text": "Dimension-typing contracts on the Eigen-backed kernels of AMatrixDense (18 methods) and on the Eigen-storage product kernels of MatrixSparse (9 methods): loop-free, hence for every matrix shape and both transposition flags (proved); bounded (3x3) term-coverage unit on the generic congruence product normMatrix; VH::whereMinimum / whereMaximum return the rank of the extremum of the defined elements VH::whereElement the first rank of the target, VH::maximum / VH::minimum (conditional forms) the extremum of the retained elements, their vector-of-vectors forms the extremum of the per-vector results (loop invariants, proved); other values are not claimed.",
     "note": "Trusted: Eigen preconditions as documented; numerical results N/A.",
     "design_ref": "DESIGN.md 3 C11",
 }
